@@ -49,11 +49,11 @@ GEN_RULE = ("scripts are generated from one splitmix64 state (VERIF_SEED) with t
 prop("C01", "proof", "Lean theorems: the greedy loop invariant (independent of the search structure) gives round-trip for the six greedy parsers; the model is tied to the Go code by executing both on the same scripts; Go oracle re-expands every block",
      "Lean 4 loop-invariant proof + model/impl differential correspondence",
      [S("p-general", 300, 6000, ["p.parse.matches", "p.shrink.effective", "p.reset.data", "p.parse.ntl.truncated"]),
-      S("u-units", 100, 2000, ["u.ulcp", "u.ulcs"]), S("p-exhaustive", 5355, 42987, []), S("p-large", 4, 80, ["p.parse.matches", "p.match.offset>=64K"], hang="120s")],
+      S("u-units", 100, 2000, ["u.ulcp", "u.ulcs"]), S("p-exhaustive", 5355, 42987, []), S("p-hugewin", 600, 6000, ["p.parse.ntl.truncated", "p.parse.matches"]), S("p-large", 4, 80, ["p.parse.matches", "p.match.offset>=64K"], hang="120s")],
      "trusted: Lean kernel, theorem statements, harness+extractor; byte comparison tricks modelled at byte level (tied by u-units)", GEN_RULE, "§8 C01")
 prop("C02", "proof", "Lean theorem on emitted sequences (offset within window and position, minimum length, Aux 0, LitLen sum) from the probe contract; oracle checks every sequence of every generated block",
      "Lean 4 proof of the probe contract + differential correspondence",
-     [S("p-general", 300, 6000, ["p.parse.matches", "p.match.offset=window"]), S("p-exhaustive", 5355, 42987, []), S("p-large", 4, 80, ["p.parse.matches"], hang="120s")],
+     [S("p-general", 300, 6000, ["p.parse.matches", "p.match.offset=window"]), S("p-exhaustive", 5355, 42987, []), S("p-hugewin", 600, 6000, ["p.parse.ntl.truncated", "p.parse.matches"]), S("p-large", 4, 80, ["p.parse.matches"], hang="120s")],
      "as C01", GEN_RULE, "§8 C02")
 prop("C03", "proof", "Lean theorems on Parse accounting (n, ErrEmptyBuffer, NoTrailingLiterals) from finishBlock; oracle compares n with Block.Len and the remaining input",
      "Lean 4 proof + differential correspondence",
